@@ -528,9 +528,20 @@ def _walker(run, P):
         "ForLoop": ["self.emit_for_begin(node.loop_var_name, node.lbound, node.ubound)",
                     "self.lower_node(node.body)", "self.emit_for_end(node.loop_var_name)"],
     }
+
+    def show(s_):
+        # the walked node is written 'node' whatever the parameter is called
+        t = ast.parse(ast.unparse(s_)).body[0]
+        for x in ast.walk(t):
+            if isinstance(x, ast.Name) and x.id == param:
+                x.id = "node"
+            elif isinstance(x, ast.Name) and x.id == "node":
+                x.id = "node_"
+        return ast.unparse(t)
+
     for cls, seq in expected.items():
         body = branches.get(cls)
-        got = [ast.unparse(s) for s in core(body, uses_self)] if body else None
+        got = [show(s) for s in core(body, uses_self)] if body else None
         run.ob("C05.walker", f, body[0] if body else f.node, got == seq,
                construct=f"{cls}: {got}",
                why=f"emission order for {cls} must be {seq}")
@@ -540,7 +551,7 @@ def _walker(run, P):
     if body and len(body) == 1 and isinstance(body[0], ast.For):
         lp = body[0]
         lb = core(lp.body, uses_self)
-        ok = dotted(lp.iter) == "node.children" and len(lb) == 1 \
+        ok = dotted(lp.iter) == f"{param}.children" and len(lb) == 1 \
             and ast.unparse(lb[0]) == f"self.lower_node({lp.target.id})"
     run.ob("C05.walker", f, body[0] if body else f.node, ok,
            construct="Block: children lowered in tuple order",
@@ -554,7 +565,7 @@ def _walker(run, P):
     la = P.func("dagrt.codegen.codegen_base.StructuredCodeGenerator.lower_ast")
     from .util import src_of
     src = src_of(core(la.node.body, uses_self))
-    run.ob("C05.walker", la, la.node, src == ["self.lower_node(ast)", "self.emit_return()"],
+    run.ob("C05.walker", la, la.node, src == [f"self.lower_node({la.arg(0)})", "self.emit_return()"],
            construct=f"lower_ast: {src}",
            why="the phase body is followed by the return/exit emission")
 
